@@ -211,6 +211,46 @@ fn mutex_abandon(fair: bool) {
     let g = m.try_lock().expect("C03: mutex not lockable after all tasks finished");
     assert!(g.get() >= 2);
 }
+/// the holder unlocks while one waiter awaits, one waiter abandons and one more waiter awaits
+fn mutex_cancel_in_queue(fair: bool) {
+    let m = Arc::new(GenericMutex::<LoomRaw, Tracked>::new(Tracked::new(), fair));
+    let _ = m.is_locked();
+    let g = m.try_lock().expect("fresh mutex must be lockable");
+    let m1 = m.clone();
+    let h1 = loom::thread::spawn(move || {
+        loom::future::block_on(async {
+            let g = m1.lock().await;
+            g.incr();
+        });
+    });
+    let m2 = m.clone();
+    let h2 = loom::thread::spawn(move || {
+        if let Some(g) = poll_once_and_drop(m2.lock()) {
+            g.incr();
+        }
+    });
+    let m3 = m.clone();
+    let h3 = loom::thread::spawn(move || {
+        loom::future::block_on(async {
+            let g = m3.lock().await;
+            g.incr();
+        });
+    });
+    g.incr();
+    drop(g);
+    h1.join().unwrap();
+    h2.join().unwrap();
+    h3.join().unwrap();
+    let g = m.try_lock().expect("C03: mutex not lockable after all tasks finished");
+    assert!(g.get() >= 3, "C02: lost update under the guard");
+}
+fn mutex_cancel_in_queue_fair() {
+    mutex_cancel_in_queue(true)
+}
+fn mutex_cancel_in_queue_unfair() {
+    mutex_cancel_in_queue(false)
+}
+
 fn mutex_abandon_fair() {
     mutex_abandon(true)
 }
@@ -371,6 +411,29 @@ fn event_set_reset_set() {
     e.set();
     h1.join().unwrap();
     h2.join().unwrap();
+    assert!(e.is_set());
+}
+
+fn event_two_waiters() {
+    let e = Arc::new(GenericManualResetEvent::<LoomRaw>::new(false));
+    let _ = e.is_set();
+    let hs: Vec<_> = (0..2)
+        .map(|_| {
+            let e = e.clone();
+            loom::thread::spawn(move || {
+                loom::future::block_on(async {
+                    e.wait().await;
+                });
+            })
+        })
+        .collect();
+    e.set();
+    e.reset();
+    // a waiter that starts waiting after the reset waits for the next set
+    e.set();
+    for h in hs {
+        h.join().unwrap();
+    }
     assert!(e.is_set());
 }
 
@@ -544,7 +607,84 @@ fn bcast_handles_race() {
     assert_eq!(v, Some(5));
 }
 
+/// the consumer is a stream; the producer sends two values and drops its handle
+fn mpmc_stream_consumer() {
+    use futures_core::stream::{FusedStream, Stream};
+    let (tx, rx) = sh::generic_channel::<LoomRaw, u32, FixedHeapBuf<u32>>(1);
+    let _ = rx.try_receive();
+    let h = loom::thread::spawn(move || {
+        loom::future::block_on(async {
+            tx.send(1).await.unwrap();
+            tx.send(2).await.unwrap();
+        });
+    });
+    let mut st = Box::pin(rx.into_stream());
+    let mut got = vec![];
+    loom::future::block_on(async {
+        loop {
+            match std::future::poll_fn(|cx| st.as_mut().poll_next(cx)).await {
+                Some(v) => got.push(v),
+                None => break,
+            }
+        }
+    });
+    h.join().unwrap();
+    assert_eq!(got, vec![1, 2], "C17/C09: stream items differ from the sent sequence");
+    assert!(st.is_terminated(), "C17: stream not terminated after None");
+}
+
+/// close() races with a producer: every value whose send reported Ok must still be received
+fn mpmc_close_vs_send() {
+    let (tx, rx) = sh::generic_channel::<LoomRaw, u32, FixedHeapBuf<u32>>(1);
+    let _ = rx.try_receive();
+    let tx2 = tx.clone();
+    let h = loom::thread::spawn(move || {
+        let mut ok = vec![];
+        loom::future::block_on(async {
+            for v in [1u32, 2] {
+                if tx2.send(v).await.is_ok() {
+                    ok.push(v);
+                }
+            }
+        });
+        ok
+    });
+    let _ = tx.close();
+    let mut got = vec![];
+    loom::future::block_on(async {
+        while let Some(v) = rx.receive().await {
+            got.push(v);
+        }
+    });
+    let ok = h.join().unwrap();
+    assert_eq!(got, ok, "C11/C08: values accepted before close {:?} but received {:?}", ok, got);
+}
+
 // ---------------------------------------------------------------- oneshot
+
+/// shared oneshot: the sender sends and is dropped on another thread; the value must arrive
+fn oneshot_shared_send_then_drop() {
+    let (tx, rx) = sh::generic_oneshot_channel::<LoomRaw, u32>();
+    let _ = poll_once_and_drop(rx.receive());
+    let h = loom::thread::spawn(move || {
+        assert!(tx.send(3).is_ok(), "C12: first send must succeed");
+        drop(tx);
+    });
+    let v = loom::future::block_on(async { rx.receive().await });
+    h.join().unwrap();
+    assert_eq!(v, Some(3), "C12: the accepted value must be delivered although the sender was dropped");
+}
+
+/// shared oneshot: the sender is dropped without sending; the receiver must finish with None
+fn oneshot_shared_drop_only() {
+    let (tx, rx) = sh::generic_oneshot_channel::<LoomRaw, u32>();
+    let _ = poll_once_and_drop(rx.receive());
+    let h = loom::thread::spawn(move || drop(tx));
+    let v = loom::future::block_on(async { rx.receive().await });
+    h.join().unwrap();
+    assert_eq!(v, None, "C11: receive must yield None after the sender was dropped");
+}
+
 
 fn oneshot_competing() {
     let c = Arc::new(GenericOneshotChannel::<LoomRaw, u32>::new());
@@ -638,7 +778,38 @@ fn timer_two_waiters() {
     assert_eq!(t.next_expiration(), None, "C15: heap not empty after all timers expired");
 }
 
+/// one waiter abandons its timer future while the timer thread expires timers
+fn timer_abandon() {
+    CLK.0.store(0, Ordering::SeqCst);
+    let t = Arc::new(GenericTimerService::<LoomRaw>::new(&CLK));
+    let _ = t.next_expiration();
+    let t1 = t.clone();
+    let h1 = loom::thread::spawn(move || {
+        let _ = poll_once_and_drop(Timer::deadline(&*t1, 1));
+    });
+    let t2 = t.clone();
+    let h2 = loom::thread::spawn(move || {
+        loom::future::block_on(async {
+            Timer::deadline(&*t2, 1).await;
+            assert!(CLK.now() >= 1, "C15: timer completed early");
+        });
+    });
+    CLK.0.store(1, Ordering::SeqCst);
+    t.check_expirations();
+    h1.join().unwrap();
+    h2.join().unwrap();
+    assert_eq!(t.next_expiration(), None, "C15/C01: heap not empty after all timers expired or were dropped");
+}
+
 const SCENARIOS: &[(&str, &str, Scenario)] = &[
+    ("mutex_cancel_in_queue_fair", "C01,C02,C03", mutex_cancel_in_queue_fair),
+    ("mutex_cancel_in_queue_unfair", "C02,C03", mutex_cancel_in_queue_unfair),
+    ("event_two_waiters", "C14", event_two_waiters),
+    ("mpmc_stream_consumer", "C09,C17", mpmc_stream_consumer),
+    ("mpmc_close_vs_send", "C08,C11", mpmc_close_vs_send),
+    ("oneshot_shared_send_then_drop", "C12", oneshot_shared_send_then_drop),
+    ("oneshot_shared_drop_only", "C11,C12", oneshot_shared_drop_only),
+    ("timer_abandon", "C01,C15", timer_abandon),
     ("mutex_counter_fair", "C01,C02,C03", mutex_counter_fair),
     ("mutex_counter_unfair", "C01,C02,C03", mutex_counter_unfair),
     ("mutex_abandon_fair", "C01,C02,C03", mutex_abandon_fair),
